@@ -12,24 +12,53 @@ import itertools
 from fractions import Fraction
 import common
 from common import enc, dec, err_kind
+from props import c16x
 
 ID = "C16"
 RULE = ("exhaustive small histories (all op words over {add(d,len), next} up to a length, all batch "
         "event lists over a delta/length grid, keep on/off) plus random long histories with dyadic "
         "deltas, late additions, additions after the end, keep toggles, negative deltas; ControlStream "
-        "set/read words.  non-trivial: at least one sample was delivered with an event playing, or the "
-        "stream ended, or an add was rejected (streamix); at least one read after an assignment (control). "
-        "distinct = distinct JSON case")
+        "set/read words.  Histories WITH FAILING OPERATIONS (entry streamix_sys, harness/props/c16x.py): all words "
+        "over {good add, add whose iter(data) raises (None / a float / __iter__ raising), negative add, next} "
+        "of length 4 (5 thorough) with a failing and a good add, keep on/off; random interleaved histories on "
+        "1-3 mixers: failing adds of every kind (None, int, float, exhausted StreamTeeHub -> IndexError, "
+        "__iter__ raising 7 exception kinds; with a negative delta too: ValueError wins) before / during "
+        "playback / after the end / after a raising read, events with an item the sum cannot take (None, "
+        "tuple vs number: TypeError) or whose iterator raises in the middle (7 kinds, StopIteration inside a "
+        "generator = RuntimeError), reads continued after the raise, StreamTeeHub copies shared by several "
+        "mixers, a closed mixer as the event of another mixer, a ControlStream as an (endless) event with "
+        "value assignments (incl. None) between reads, delta spelled int / bool / float / -0.0 / Fraction, "
+        "zero spelled int / bool / float / -0.0 / Fraction / huge int / tuple / None / left to the default, "
+        "keep spelled bool / int / str / list / None / float, constructor and add called positionally / by "
+        "keyword / mixed / with defaults, data as list / tuple / iterator / generator / Stream / deque.  "
+        "non-trivial: at least one sample was delivered with an event playing, or the "
+        "stream ended, or an add was rejected / failed, or a read raised (streamix); at least one read after an "
+        "assignment (control).  distinct = distinct JSON case")
 TRUSTED = [
     "hand-written Lean models of lazy_stream.Streamix / ControlStream: ALV/Model/C16Gen.lean (generator level: "
     "iterator objects with identity, summing pass + to_remove pass with list.remove, count += 1. at the "
     "resumption; this is what the driver runs) proved equivalent to ALV/Model/C16.lean (fused) proved equal to "
     "the spec.  Modelled, not verified: the generator protocol itself, deque, iter(); event data are finite lists",
+    "ALV/Model/C16X.lean (what the driver runs for streamix_sys): the same generator-level machine with exceptions — "
+    "add tests delta, then evaluates iter(data), then appends; an exception in `data += next(snd)` finishes the "
+    "generator and leaves the containers as the loop left them; proved (xrun_eq_view, streamix_x_eq_spec) to show "
+    "what the spec shows on the history without the failed adds.  Modelled, not verified: that a Python generator "
+    "is finished by an exception passing through it; an event iterator that raised gives nothing more; Python's "
+    "`+` on numbers / tuples / None (TypeError table of the driver's XVal)",
     "the `count` observation reads the generator frame local named `count` (skipped when absent)",
+    "a StreamTeeHub copy, a Stream, a deque, a generator are seen by the model as the finite list of their items; a "
+    "closed inner mixer as the list of what the model says it still yields (driver: drainX); a ControlStream event "
+    "as the list of the values it has at the reads of the history, aligned with the spec's start formula "
+    "max(ceil(T-1/2), samples delivered) computed in Python (c16x._ctl_items)",
+    "the Python type of a sample is checked only where the theorems pin it: an idle sample is the zero value "
+    "itself (zero_after_end), a float zero makes every sample a float",
 ]
 ASSUMPTIONS = [
     "deltas and data are exact in binary floating point (dyadic, bounded) in the tie; the theorems are over all rationals",
-    "each event's data is a fresh finite iterable (not shared between events, raises nothing but StopIteration)",
+    "each event's data is a fresh iterable (one iterator object is not added twice; hub copies are independent); "
+    "an event's iterator raises at most once and is then finished (generators)",
+    "a mixer used as the data of another one has keep off and is not touched afterwards; a ControlStream is added "
+    "as an event at most once",
     "ControlStream reads are next()/take()/reads through .map(); peek()/copy() buffer values by design and are outside the property",
 ]
 
@@ -38,12 +67,18 @@ MANIFEST = {
             "generator-level model of Streamix (iterator identities, two-pass removal, count at resumption) = fused "
             "state machine = log-and-closed-formula specification (start max(ceil(T_i - 1/2), moment added), "
             "out n = zero + sum of the items due); count invariant, no drift, termination at max(start_i+len_i), "
-            "keep, rejection of negative deltas, no revival, ControlStream last-assigned value.  Tied to /repo by "
-            "stepping the real objects through the same histories (outputs, StopIteration, container sizes, the "
-            "generator frame's count) in the exact (dyadic) regime",
+            "keep, rejection of negative deltas, no revival, ControlStream last-assigned value.  With exceptions "
+            "(ALV/Model/C16X): for every history that also contains adds whose iter(data) raises and items / "
+            "additions that raise, the machine shows what the spec shows on the history WITHOUT the failed adds "
+            "(a failed add leaves the state unchanged, T_i sums only the deltas of the adds that succeeded), the "
+            "first exception in summing order is the one raised, and a raising read finishes the generator.  Tied "
+            "to /repo by stepping the real objects through the same histories (outputs, exceptions, StopIteration, "
+            "container sizes, the generator frame's count; several mixers, shared StreamTeeHub copies, mixers and "
+            "ControlStreams as events, spellings and call shapes) in the exact (dyadic) regime",
     "note": "Trusted: Lean kernel, axioms propext/Classical.choice/Quot.sound, the Python harness; models are hand "
-            "written (event data = finite lists, generator protocol not modelled below the level of one next()); "
-            "floating-point rounding of non-dyadic deltas is outside the theorems",
+            "written (event data = finite lists, generator protocol not modelled below the level of one next(); an "
+            "exception through the generator finishes it); floating-point rounding of non-dyadic deltas, inf / nan "
+            "deltas, a mutable zero (list) and a Stream as zero are outside the theorems",
 }
 
 # ----------------------------------------------------------------------------------------------
@@ -292,6 +327,8 @@ def _exact_ok(c):
     every sum / comparison the impl makes in binary floating point is exact."""
     if c["entry"] == "control":
         return True
+    if c["entry"] == "streamix_sys":
+        return c16x.valid(c)
     seq = c["entry"] == "streamix_seq"
     Tsum = Fraction(0)
     if c.get("tol") and (c["zk"] != "int" or c.get("defaults")):
@@ -336,6 +373,11 @@ def _generate(rng, tier, scale=1):
         else:
             cases.append(_random_history(rng, big=(i % 4 == 0)))
     cases += _control_cases(rng, tier, scale)
+    # histories with failing operations, several mixers, shared hubs, mixers as events (c16x)
+    if scale == 1:
+        cases += c16x.exhaustive(tier)
+    for i in range((2500 if tier == "quick" else 30000) * scale):
+        cases.append(c16x.random_case(rng, big=(i % 4 == 0)))
     return cases
 
 
@@ -424,12 +466,16 @@ def impl(c):
     try:
         if c["entry"] == "control":
             return _impl_control(c)
+        if c["entry"] == "streamix_sys":
+            return c16x.impl(c)
         return _impl_streamix(c)
     except Exception as e:
         return {"err": err_kind(e)}
 
 
 def request(c):
+    if c["entry"] == "streamix_sys":
+        return c16x.request(c)
     if c["entry"] == "control":
         return {"entry": "control", "init": c["init"], "ops": c["ops"]}
     ops = []
@@ -490,6 +536,8 @@ def _lean_reads(xs):
 
 def compare(c, io, drv):
     out = []
+    if c["entry"] == "streamix_sys":
+        return c16x.compare(c, io, drv)
     if "err" in io:
         return [("model", "impl raised " + io["err"]), ("spec", "impl raised " + io["err"])]
     if c["entry"] == "control":
@@ -514,6 +562,8 @@ def compare(c, io, drv):
 def nontrivial(c, io):
     if "err" in io:
         return False
+    if c["entry"] == "streamix_sys":
+        return c16x.nontrivial(c, io)
     if c["entry"] == "control":
         seen_set = False
         for op in c["ops"]:
@@ -531,6 +581,8 @@ def nontrivial(c, io):
 
 def tally(eng, c, io):
     eng.count("entry", c["entry"])
+    if c["entry"] == "streamix_sys":
+        return c16x.tally(eng, c, io)
     if "err" in io:
         eng.count("impl_error", io["err"])
         return
@@ -610,6 +662,10 @@ def neighbours(c):
 
 
 def _shrink(c):
+    if c["entry"] == "streamix_sys":
+        for x in c16x.shrink(c):
+            yield x
+        return
     ops = c["ops"]
     if c["entry"] == "control":
         for i in range(len(ops)):
@@ -652,6 +708,10 @@ def _shrink(c):
 
 
 def _neighbours(c):
+    if c["entry"] == "streamix_sys":
+        for x in c16x.neighbours(c):
+            yield x
+        return
     if c["entry"] == "control":
         yield dict(c, ops=c["ops"] + [{"op": "read"}])
         return
@@ -676,6 +736,8 @@ def _kind(o):
 
 
 def classify(c, io, drv):
+    if c["entry"] == "streamix_sys":
+        return c16x.classify(c, io, drv)
     if "err" in io:
         return c["entry"] + ":" + io["err"]
     if c["entry"] == "control":
